@@ -1052,6 +1052,54 @@ def rule_r4_depth(ctx: Ctx) -> None:
     bls = ctx.cls("_bit_length_set._bit_length_set.BitLengthSet")
     COMPOSE = {"pad_to_alignment", "repeat", "repeat_range", "concatenate", "unite"}
     n_loops = 0
+    g = CallGraph(repo)
+    callers: Dict[str, Set[str]] = {}
+    for a, bs in g.edges.items():
+        for b in bs:
+            callers.setdefault(b, set()).add(a)
+
+    def entries(fn: Any) -> List[str]:
+        """what the chain belongs to: `Class.method` with the class that owns the loop (or, for a helper outside any class,
+        the class of the caller) and the nearest public method through which it is reached - the identity of a finding
+        does not depend on which helper the statements live in"""
+        top = fn
+        while top.parent is not None:
+            top = top.parent
+        out: Set[str] = set()
+        seen: Set[str] = set()
+        todo: List[Tuple[Any, Any]] = [(top, top.cls)]
+        while todo:
+            f, owner = todo.pop()
+            if f.qualname in seen:
+                continue
+            seen.add(f.qualname)
+            owner = owner or f.cls
+            if not f.name.startswith("_") or f.name == "__init__":
+                out.add("%s.%s" % (owner.name if owner is not None else f.module.name[len("pydsdl."):], f.name))
+                continue
+            cs = [g.funcs[c] for c in sorted(callers.get(f.qualname, ())) if c in g.funcs and not g.funcs[c].name.startswith("_unittest")]
+            if not cs:
+                out.add("%s.%s" % (owner.name if owner is not None else f.module.name[len("pydsdl."):], f.name))
+            for c in cs:
+                while c.parent is not None:
+                    c = c.parent
+                todo.append((c, owner))
+        return sorted(out)
+
+    def operators(v: ast.AST) -> List[str]:
+        ops: Set[str] = set()
+        for n in ast.walk(v):
+            if isinstance(n, ast.BinOp) and isinstance(n.op, (ast.Add, ast.BitOr)):
+                ops.add("+" if isinstance(n.op, ast.Add) else "|")
+            elif isinstance(n, ast.Call) and isinstance(n.func, ast.Attribute) and n.func.attr in COMPOSE:
+                ops.add(n.func.attr)
+        return sorted(ops)
+
+    def report(fn: Any, st: ast.AST, ops: List[str], how: str) -> None:
+        for e in entries(fn):
+            for o in ops:
+                ctx.check(False, e, "one more `%s` level per element" % o, "%s in %s (`%s`): the recursion depth of min / max / modulo (and of the hash and equality of the type) grows with the number of elements, so a long but valid definition ends in RecursionError" % (how, fn.short, norm(st)[:90]), fn.where(st), {"recursive queries": sorted(recursive)[:6], "statement": norm(st), "function": fn.short})
+
     for fn in repo.all_functions().values():
         short_mod = fn.module.name[len("pydsdl."):]
         if not (short_mod.startswith("_serializable") or short_mod in ("_data_schema_builder", "_data_type_builder")) or fn.name.startswith("_unittest"):
@@ -1067,10 +1115,9 @@ def rule_r4_depth(ctx: Ctx) -> None:
             if v is None:
                 return False
             mentions = any(isinstance(n, ast.Name) and n.id == acc for n in ast.walk(v))
-            composes = any((isinstance(n, ast.BinOp) and isinstance(n.op, (ast.Add, ast.BitOr))) or (isinstance(n, ast.Call) and isinstance(n.func, ast.Attribute) and n.func.attr in COMPOSE) for n in ast.walk(v))
-            return mentions and composes
+            return mentions and bool(operators(v))
 
-        for loop in [n for n in ast.walk(fn.node) if isinstance(n, ast.For)]:
+        for loop in [n for n in ast.walk(fn.node) if isinstance(n, (ast.For, ast.While))]:
             n_loops += 1
             for st in ast.walk(loop):
                 tg = None
@@ -1088,17 +1135,19 @@ def rule_r4_depth(ctx: Ctx) -> None:
                 is_bls = bool(ty) and bls in ty.classes
                 if not is_bls:
                     continue
-                if isinstance(st, ast.AugAssign) or chained(st, tg):
-                    ctx.check(False, fn.short, norm(st), "one operator level is added per iteration of `for %s in %s`: the recursion depth of min / max / modulo (and of the hash and equality of the type) grows with the number of elements, so a long but valid definition ends in RecursionError" % (norm(loop.target), norm(loop.iter)[:40]), fn.where(st), {"recursive queries": sorted(recursive)[:6]})
+                what = "for %s in %s" % (norm(loop.target), norm(loop.iter)[:40]) if isinstance(loop, ast.For) else "while %s" % norm(loop.test)[:40]
+                if isinstance(st, ast.AugAssign):
+                    report(fn, st, sorted(set(["+" if isinstance(st.op, ast.Add) else "|"] + operators(st.value))), "one operator level is added per iteration of `%s`" % what)
+                elif chained(st, tg):
+                    report(fn, st, operators(st.value), "one operator level is added per iteration of `%s`" % what)
         for call in [n for n in ast.walk(fn.node) if isinstance(n, ast.Call) and (dotted(n.func) or "").split(".")[-1] in ("reduce", "accumulate") and n.args and isinstance(n.args[0], ast.Lambda)]:
             lam = call.args[0]
-            if lam.args.args and chained(ast.Expr(value=lam.body), lam.args.args[0].arg) is False:
+            if lam.args.args:
                 v = lam.body
                 acc = lam.args.args[0].arg
                 mentions = any(isinstance(n, ast.Name) and n.id == acc for n in ast.walk(v))
-                composes = any((isinstance(n, ast.BinOp) and isinstance(n.op, (ast.Add, ast.BitOr))) or (isinstance(n, ast.Call) and isinstance(n.func, ast.Attribute) and n.func.attr in COMPOSE) for n in ast.walk(v))
-                if mentions and composes and any(isinstance(n, ast.Attribute) and n.attr in ("bit_length_set", "alignment_requirement") for n in ast.walk(v)):
-                    ctx.check(False, fn.short, norm(call)[:90], "one operator level is added per folded element: the recursion depth of the layout queries grows with the number of elements", fn.where(call), {"recursive queries": sorted(recursive)[:6]})
+                if mentions and operators(v) and any(isinstance(n, ast.Attribute) and n.attr in ("bit_length_set", "alignment_requirement") for n in ast.walk(v)):
+                    report(fn, call, operators(v), "one operator level is added per folded element")
     ctx.count(n_loops)
     ctx.check(True, "_serializable.*, _data_schema_builder, _data_type_builder", "%d loops scanned" % n_loops, "scan completed", "pydsdl/_serializable", nontrivial=False)
 
